@@ -111,6 +111,10 @@ package connectconformance
 //@   ensures @drained forall k string :: !has(c.pendingOps, k)
 //@   ensures @monotone forall k string :: cbCount[k] >= old(cbCount[k])
 //@   assert_at "action(resp.TestName, resp, nil)": !has(c.pendingOps, resp.TestName) && !held[c.pendingMu]
+//@   //# a decoded response is never given up on before the pending table has been consulted for its name (so an answer to a
+//@   //# request that is in flight reaches that request's callback, whatever was answered earlier): every return is preceded
+//@   //# by the lookup, except the one taken when reading failed (checked on the control-flow graph)
+//@   returns_after "c.pendingOps[resp.TestName]" unless "reasonForReturn = readErr"
 //@   loop 0: invariant !held[c.sendMu] && !held[c.pendingMu] && reasonForReturn == nil && testCaseNames != nil && !chanClosed[c.done]
 //@           invariant forall k string :: cbCount[k] >= atpre(cbCount[k])
 //@           //# every response read so far has been handed to a callback: a response nobody waits for (unknown or already answered) ends the loop
